@@ -2,6 +2,9 @@
 import AiuVerif.Basic
 import AiuVerif.Model.Conserve
 import AiuVerif.Model.ExportArgs
+import AiuVerif.Model.CalcBw
+import AiuVerif.Model.SmallStages
+import AiuVerif.Gen.Tables
 
 namespace AiuVerif.Drv.C01
 open AiuVerif AiuVerif.Conserve
@@ -40,6 +43,43 @@ def parseKV (s : String) : Option (ExportArgs.KV String) :=
 def showKV (d : ExportArgs.KV String) : String :=
   if d.isEmpty then "%" else joinWith "," (d.map (fun p => p.1 ++ ":" ++ p.2))
 
+def optStr (s : String) : Option String := if s = "-" then none else some (PhaseName.decode s)
+
+/-- `uid,ph,pid,ts,dur,hasArgs,collGroup|-,bytes|-,name` (strings percent-encoded) -/
+def parseBEv (s : String) : Option CalcBw.BEv :=
+  match s.splitOn "," with
+  | [u, ph, pid, ts, dur, ha, cg, by_, nm] =>
+    match parseNat? u, parseInt? pid, parseRat? ts, parseRat? dur,
+        (if by_ = "-" then some none else (parseInt? by_).map some) with
+    | some u, some pid, some ts, some dur, some by_ =>
+      some { uid := some u, ph := PhaseName.decode ph, pid := pid, ts := ts, dur := dur, hasArgs := b ha,
+             collGroup := optStr cg, bytes := by_, name := PhaseName.decode nm }
+    | _, _, _, _, _ => none
+  | _ => none
+
+def showBEv (e : CalcBw.BEv) : String :=
+  match e.uid with
+  | some u => "u" ++ toString u
+  | none => joinWith "," ["c", e.name.replace " " "_", toString e.pid, showRat e.ts, showOptRat e.value]
+
+/-- `uid,isX,tid|-,flex,pid` -/
+def parseTEv (s : String) : Option Small.TEv :=
+  match s.splitOn "," with
+  | [u, x, t, f, p] =>
+    match parseNat? u, (if t = "-" then some none else (parseInt? t).map some), parseInt? p with
+    | some u, some t, some p => some { uid := u, isX := b x, tid := t, flex := b f, pid := p }
+    | _, _, _ => none
+  | _ => none
+
+def showOptInt : Option Int → String
+  | none => "-"
+  | some i => toString i
+
+def showInts (l : List Int) : String := if l.isEmpty then "%" else joinWith "," (l.map toString)
+
+def parseList {α : Type} (f : String → Option α) (s : String) : Option (List α) :=
+  if s = "%" then some [] else parseAll f (s.splitOn ";")
+
 def handle (args : List String) : String :=
   match args with
   | ["spec", o, sl] =>
@@ -52,6 +92,45 @@ def handle (args : List String) : String :=
     match parseKV top, (if a = "-" then some none else (parseKV a).map some) with
     | some t, some a => showKV (ExportArgs.exportArgs t a)
     | _, _ => "bad-op"
+  | ["bw", evs] =>
+    -- mp_calc_bw: what drain() hands on (input events by uid, synthesized counters in full)
+    match parseList parseBEv evs with
+    | some es =>
+      match CalcBw.drain es with
+      | .error m => "err:" ++ m
+      | .ok out => if out.isEmpty then "%" else joinWith ";" (out.map showBEv)
+    | none => "bad-op"
+  | ["tidmap", evs] =>
+    -- map_tid_to_range from the context the CLI registers (Gen/Tables): new tids | tid_original | tid_remap
+    match parseList parseTEv evs with
+    | some es =>
+      match Small.mapAll ⟨[], Gen.tidRemap, Gen.tidStep⟩ es with
+      | .error m => "err:" ++ m
+      | .ok (c, out) =>
+        (if out.isEmpty then "%" else joinWith "," (out.map (fun e => toString e.uid ++ ":" ++ showOptInt e.tid)))
+          ++ "|" ++ showInts c.orig ++ "|" ++ showInts c.remap
+    | none => "bad-op"
+  | ["tidmap0", size, start, step, evs] =>
+    -- the same from a freshly constructed TIDMappingContext(size, start, step)
+    match parseNat? size, parseInt? start, parseInt? step, parseList parseTEv evs with
+    | some n, some st, some sp, some es =>
+      match Small.mapAll (Small.TidCtx.init n st sp) es with
+      | .error m => "err:" ++ m
+      | .ok (c, out) =>
+        (if out.isEmpty then "%" else joinWith "," (out.map (fun e => toString e.uid ++ ":" ++ showOptInt e.tid)))
+          ++ "|" ++ showInts c.orig ++ "|" ++ showInts c.remap
+    | _, _, _, _ => "bad-op"
+  | ["dropg", names] =>
+    -- drop_global_events: 1 = kept, 0 = removed, per name
+    match parseList (fun w => some (PhaseName.decode w)) names with
+    | some ns => if ns.isEmpty then "%" else
+        joinWith "," (ns.map (fun n => if Small.isGlobal Gen.glbNames n then "0" else "1"))
+    | none => "bad-op"
+  | ["pfilter", pat, phs] =>
+    match parseList (fun w => some (PhaseName.decode w)) phs with
+    | some ps => if ps.isEmpty then "%" else
+        joinWith "," (ps.map (fun p => if Small.keepPh (optStr pat) p then "1" else "0"))
+    | none => "bad-op"
   | _ => "bad-op"
 
 end AiuVerif.Drv.C01
